@@ -40,6 +40,8 @@ Classes == {"empty",      \* no bytes
 CtClasses == {"exact",      \* the registered media type, verbatim
               "params",     \* the registered media type with parameters (charset=...)
               "other",      \* a well-formed media type that is not registered
+              "near",       \* not registered, but sharing type and subtype stem with a registered one: a structured-syntax
+                            \* suffix (application/json+xml), another top-level type (text/json), a longer subtype (json-seq)
               "wildcard",   \* */* or type/*
               "garbage",    \* not a media type
               "absent"}
@@ -100,7 +102,7 @@ ServerWhyOk(h, why) == why = "stream" => HasFail(h)
 
 ---------------------------------------------------------------------------
 (* client: ret \in {"unit", "value", "default", "binary", "optbinary"}; status \in {200, 204}              *)
-(* ct \in {"json", "jsonparams", "octet", "other", "absent"}                                               *)
+(* ct \in {"json", "jsonparams", "octet", "other", "near", "absent"}                                       *)
 (* verdict \in {"value", "empty", "stream-handle", "error"}                                                *)
 ClientDeser(ret, cls) ==
     IF ret = "unit"    \* IgnoredAny: any single well-formed document
